@@ -243,8 +243,11 @@ class Ctx:
         coverage['inconclusive'] = self.inconclusive[:10]
         ev = {'property_id': self.pid, 'tier': self.tier, 'seed': self.seed, 'level': self.level, 'coverage': coverage,
               'assumptions': self.assumptions, 'wall_s': round(wall, 2), 'violations': len(self.viol)}
-        os.makedirs(EVIDENCE_DIR, exist_ok=True)
-        with open(os.path.join(EVIDENCE_DIR, self.pid + '.json'), 'w') as f:
+        # the committed evidence describes the registered command on /repo itself; experiments (scratch tree, scaled or partial runs) write elsewhere
+        experiment = bool(os.environ.get('VERIF_REPO')) or os.environ.get('VERIF_SCALE', '1') not in ('1', '1.0') or bool(os.environ.get('VERIF_ONLY')) or bool(os.environ.get('VERIF_COVERAGE'))
+        evdir = EVIDENCE_DIR if not experiment else os.path.join(VERIF, '.run', 'evidence-experiments')
+        os.makedirs(evdir, exist_ok=True)
+        with open(os.path.join(evdir, self.pid + '.json'), 'w') as f:
             json.dump(ev, f, indent=1, default=str)
         for sig, cnt in sorted(self.known_hit.items()):
             print(f'KNOWN-FINDING: property={self.pid} sig={sig} x{cnt} {self.known.get((self.pid, sig), "")}')
